@@ -12,13 +12,22 @@ histlib.resize_arr, conversion = histlib.widen) so a disagreement can be classif
 
 Theorems of Props/C01.v, Props/C13.v this tie connects to the code: C01_chunk_tiling,
 C01_order_irrelevant, C01_int_roundtrip, C01_string_roundtrip, C13_read_after_resize,
-C13_read_after_two_resizes_partial / C13_shrink_grow_refuted.
+C13_read_after_resizes / C13_shrink_grow_refuted; chunk index: C01_index_roundtrip, C01_index_refused_unchanged,
+C01_index_lookup, C01_chunked_end_to_end (Model/ChunkIndex.v with the repair switch read from the source tree).
 """
-import itertools, os, struct, time
+import itertools, os, re, struct, time
 import vlib
 import histlib
 
 LAST_INDEX_COVERAGE = {}
+# The capacity boundary (65535 / 65536 entries).  Measured: the list-based model reader is quadratic in the node size
+# (rd_le / slice_from skip from the start of the 1.5 MB node for every key), a 65535-entry node does not finish
+# under vm_compute in 10 minutes - in no tier.  So: Go runs all three long cases in both tiers (milliseconds) and is
+# checked against the Python specification (65535 entries written and read back value-exact; a foreign full node
+# parses; 65536 entries refused with file and allocator untouched); the MODEL is evaluated on the refusal (linear:
+# write_index_st only counts) and on the per-entry loop up to 300 (quick) / 3000 (thorough) entries; the step from
+# there to every n <= 65535 is theorem C01_index_roundtrip, not evaluation.
+LONG_IN_QUICK = True
 
 EXT = [1, 2, 3, 5, 7, 8, 13, 16, 17, 31]
 ESZ = [1, 2, 4, 8, 3]
@@ -254,6 +263,69 @@ def gen_index_cases(rng, thorough):
     return cases
 
 
+def long_index_cases():
+    """the capacity boundary of the single leaf: MaxChunkBTreeEntries entries round-trip, one more is refused with the
+    file and the allocator untouched"""
+    def ents(n):
+        return [dict(coord=[4 * i], addr=1000 + 16 * i, nbytes=16) for i in range(n)]
+    return [dict(mode="index", dim=1, cdims=[4], eof=0, entries=ents(MAX_ENTRIES), long=True),
+            dict(mode="index", dim=1, cdims=[4], eof=40, entries=ents(MAX_ENTRIES + 1), long=True)]
+
+
+MAX_ENTRIES = 65535
+
+
+def source_switch():
+    """The model's switch `rep` (Model/ChunkIndex.v), a syntactic fact read from the source tree under test
+    (DESIGN 4.4): True = the code since /repo 18c9d53 (key slice sized in int, WriteToFile and writeChunkedData
+    refuse more than MaxChunkBTreeEntries chunks), False = the code before it.  A tree that has only some of the
+    three edits is not a tree the one-switch model follows: fail loudly."""
+    def src(rel):
+        return open(os.path.join(vlib.REPO, rel)).read()
+    rd, wr, ds = src("internal/core/btree_v1.go"), src("internal/structures/btree_chunk.go"), src("dataset_write_chunked.go")
+    if "node.Keys = make([]ChunkKey, int(node.EntriesUsed)+1)" in rd:
+        reader = True
+    elif "node.Keys = make([]ChunkKey, node.EntriesUsed+1)" in rd:
+        reader = False
+    else:
+        raise RuntimeError("c01unit: cannot find the allocation of node.Keys in internal/core/btree_v1.go (neither the repaired nor the old form)")
+    mc = re.search(r"const MaxChunkBTreeEntries = (\d+)", wr)
+    wt = wr[wr.index("func (w *ChunkBTreeWriter) WriteToFile("):]
+    wt = wt[:wt.index("\n}\n")]
+    writer = bool(mc) and re.search(r"if len\(w\.entries\) > MaxChunkBTreeEntries \{\s*return 0,", wt) is not None
+    if writer and int(mc.group(1)) != MAX_ENTRIES:
+        raise RuntimeError("c01unit: MaxChunkBTreeEntries = %s, the model has %d" % (mc.group(1), MAX_ENTRIES))
+    wc = ds[ds.index("func (dw *DatasetWriter) writeChunkedData("):]
+    first_alloc = wc.index("dw.fileWriter.writer.Allocate(")
+    mw = re.search(r"if totalChunks > structures\.MaxChunkBTreeEntries \{", wc)
+    dataset = mw is not None and mw.start() < first_alloc
+    if not (reader == writer == dataset):
+        raise RuntimeError("c01unit: the tree has only part of the repair 18c9d53 (reader %s, WriteToFile %s, writeChunkedData %s): "
+                           "the model's switch cannot be set" % (reader, writer, dataset))
+    return reader
+
+
+def compress_runs(entries, head, addr, same):
+    """lossless transport of long entry lists (Model/ChunkIndexTie.v expand_runs / expand_wruns): maximal arithmetic
+    runs; head(e) = the list whose first element steps, addr(e) = the address, same(a, b) = everything else equal.
+    Returns [(first entry, dhead, daddr, count)]."""
+    runs, i = [], 0
+    while i < len(entries):
+        e, k, dh, da = entries[i], 1, 0, 0
+        if i + 1 < len(entries) and head(e):
+            n = entries[i + 1]
+            dh, da = head(n)[0] - head(e)[0], addr(n) - addr(e)
+            if dh >= 0 and da >= 0:
+                while (i + k < len(entries) and same(entries[i + k], e) and head(entries[i + k])[1:] == head(e)[1:]
+                       and head(entries[i + k])[0] == head(e)[0] + k * dh and addr(entries[i + k]) == addr(e) + k * da):
+                    k += 1
+            if k == 1:
+                dh = da = 0
+        runs.append((e, dh, da, k))
+        i += k
+    return runs
+
+
 def py_node(level, entries, lastkey, osz=8, used=None, sig=b"TREE", ntype=1, sib=(U64, U64)):
     """bytes of one B-tree node; entries = [(nbytes, mask, [offsets], child)]"""
     mask = (1 << (8 * osz)) - 1 if osz else 0
@@ -385,6 +457,10 @@ def run_unit(ctx):
     conv = gen_conv_cases(rng, nper)
     enc = gen_enc_cases(rng, nper)
     idxc = gen_index_cases(rng, thorough)
+    repaired = source_switch()
+    crep = vlib.cbool(repaired)
+    # the two 65535 / 65536-entry cases: measured 2026-09: see LONG_IN_QUICK below
+    idxc += long_index_cases() if (thorough or LONG_IN_QUICK) else []
     cases = tile + resize + conv + enc + idxc
     res = vlib.run_harness_parallel(H, "c01unit", cases) if thorough else vlib.run_harness(H, "c01unit", cases)
     viol, samples, known = [], [], []
@@ -553,6 +629,8 @@ def run_unit(ctx):
         return 2 if "panic" in r else r["read"]["class"]
 
     iw_terms, iw_idx, iw_weight = [], [], []
+    iwl_terms, iwl_idx = [], []
+    long_go_only = []
     raw_bases = []
     max_entries = 0
     for i, (c, r) in enumerate(zip(cases, res)):
@@ -564,8 +642,9 @@ def run_unit(ctx):
         if "harness_error" in r:
             bad("index harness error: %s" % r["harness_error"][:200], c, r)
             continue
-        wvalid = len(ents) > 0 and all(len(e["coord"]) == dim for e in ents)
+        wvalid = 0 < len(ents) <= MAX_ENTRIES and all(len(e["coord"]) == dim for e in ents)
         rvalid = wvalid and all(x > 0 for x in cdims) and len(cdims) == dim
+        gfile, geof = r.get("file", "00" * c["eof"]), r.get("eof", c["eof"])
         if "panic" in r:
             if rvalid:
                 bad("chunk index of %d entries (rank %d): the library panics: %s" % (len(ents), dim, r["panic"][:160]), c, r)
@@ -573,7 +652,13 @@ def run_unit(ctx):
             # not a valid input of the property: compared with the model only (class 2)
         if wvalid != bool(r.get("wok")) and "panic" not in r:
             bad("ChunkBTreeWriter %s an entry list that is %s (%d entries, rank %d): %s"
-                % ("refuses" if wvalid else "accepts", "valid" if wvalid else "invalid", len(ents), dim, r.get("werr", "")), c, r)
+                % ("refuses" if wvalid else "accepts", "valid" if wvalid else "invalid", len(ents), dim, r.get("werr", "")),
+                dict(c, entries=ents[:3] + ["... %d more" % (len(ents) - 3)]) if len(ents) > 400 else c,
+                {k: v for k, v in r.items() if k not in ("file", "read")} if len(ents) > 400 else r)
+            continue
+        if not r.get("wok") and "panic" not in r and (geof != c["eof"] or bytes.fromhex(gfile) != bytes(c["eof"])):
+            bad("a refused WriteToFile (%d entries) changed the state: allocator end %d -> %d, file %d -> %d bytes"
+                % (len(ents), c["eof"], geof, c["eof"], len(gfile) // 2), c, r)
             continue
         if r.get("wok") and rvalid:
             # specification on the Go output: every written entry exactly once, in offset order, offsets divided by the
@@ -593,17 +678,34 @@ def run_unit(ctx):
                     expected=exp[:50])
                 continue
             max_entries = max(max_entries, len(ents))
+            if geof != c["eof"] + len(gfile) // 2 - c["eof"] or len(gfile) // 2 != c["eof"] + 24 + len(ents) * (16 + 8 * dim) + 8 + 8 * dim:
+                bad("index node of %d entries (rank %d): file %d bytes, allocator end %d" % (len(ents), dim, len(gfile) // 2, geof), c, r)
+                continue
             if len(ents) <= 5 and len(raw_bases) < (60 if thorough else 14):
                 raw_bases.append((bytes.fromhex(r["file"]), r["root"], 8, cdims))
             if len(samples) < 7 and len(ents) in (3, 33) and dim >= 2:
                 samples.append(dict(mode="index", dim=dim, cdims=cdims, entries=ents[:3], n=len(ents), root=r["root"], read=rd["entries"][:3]))
+        if "panic" in r:
+            continue
+        if c.get("long") and r.get("wok"):
+            long_go_only.append("%d entries written and read back by Go, equal to the Python specification" % len(ents))
+            continue
+        if c.get("long"):
+            wr = compress_runs(ents, lambda e: e["coord"], lambda e: e["addr"], lambda a, b: a["nbytes"] == b["nbytes"])
+            es = "[" + ";".join("((%s,%d,%d),%d,%d,%d)" % (cl(e["coord"]), e["addr"], e["nbytes"], dh, da, k) for e, dh, da, k in wr) + "]"
+            got = (r.get("read") or {}).get("entries") or []
+            gr = compress_runs(got, lambda e: e["scaled"], lambda e: e["addr"], lambda a, b: (a["nbytes"], a["mask"]) == (b["nbytes"], b["mask"]))
+            gs = "[" + ";".join("((%s,%d,%d,%d),%d,%d,%d)" % (cl(e["scaled"]), e["nbytes"], e["mask"], e["addr"], dh, da, k) for e, dh, da, k in gr) + "]"
+            t = "(%d%%nat,%s,%s,%d,%s,%d,%d,%s,%d,%s)" % (dim, cl(cdims), es, c["eof"], vlib.cbool(bool(r.get("wok"))), r.get("root", 0), geof, pk(gfile),
+                                                       rclass(r) if r.get("wok") else 1, gs)
+            iwl_terms.append(t)
+            iwl_idx.append(i)
+            continue
         es = "[" + ";".join("(%s,%d,%d)" % (cl(e["coord"]), e["addr"], e["nbytes"]) for e in ents) + "]"
         if r.get("wok"):
-            t = "(%d%%nat,%s,%s,%d,true,%d,%s,%d,%s)" % (dim, cl(cdims), es, c["eof"], r["root"], pk(r["file"]), rclass(r), gents(r.get("read", {})))
-        elif "panic" in r:
-            continue
+            t = "(%d%%nat,%s,%s,%d,true,%d,%d,%s,%d,%s)" % (dim, cl(cdims), es, c["eof"], r["root"], geof, pk(gfile), rclass(r), gents(r.get("read", {})))
         else:
-            t = "(%d%%nat,%s,%s,%d,false,0,%s,1,[])" % (dim, cl(cdims), es, c["eof"], pk(b""))
+            t = "(%d%%nat,%s,%s,%d,false,0,%d,%s,1,[])" % (dim, cl(cdims), es, c["eof"], geof, pk(gfile))
         iw_terms.append(t)
         iw_idx.append(i)
         iw_weight.append(20 + len(ents) * (2 * dim + 8) + len(r.get("file", "")) // 14)
@@ -614,7 +716,7 @@ def run_unit(ctx):
             if j == len(terms) or (cur and curw + weights[j] > limit):
                 name = "%s_%d" % (prefix, k)
                 groups.append(("Definition %s : list %s := [%s].\n" % (name, ty, ";".join(terms[x] for x in cur))
-                               + "Definition bad_%s := Eval vm_compute in mismatches %s %s.\n" % (name, okf, name),
+                               + "Definition bad_%s := Eval vm_compute in mismatches (%s %s) %s.\n" % (name, okf, crep, name),
                                [("bad_" + name, "model", [idxs[x] for x in cur])]))
                 k, cur, curw = k + 1, [], 0
             if j < len(terms):
@@ -622,6 +724,9 @@ def run_unit(ctx):
                 curw += weights[j]
 
     weighted_groups("iw", "iwcase", "iw_ok", iw_terms, iw_idx, iw_weight, 6000)
+    for k, (t, i) in enumerate(zip(iwl_terms, iwl_idx)):      # one group each: they run in parallel
+        groups.append(("Definition iwl_%d : list iwlcase := [%s].\nDefinition bad_iwl_%d := Eval vm_compute in mismatches (iwl_ok %s) iwl_%d.\n"
+                       % (k, t, k, crep, k), [("bad_iwl_%d" % k, "model", [i])]))
 
     # multi-level trees built here (the writer never emits them; the reader's recursion, level guard and visited set)
     tree_cases, tree_expect = [], []
@@ -655,9 +760,12 @@ def run_unit(ctx):
     # enough for 65535 entries); 65534 with the same bytes is an ordinary (all-zero) node of 65534 entries - not evaluated
     # by the model here (too long for the list-based evaluation), only its short-file error twin
     hdr65535 = py_node(0, [], (0, 0, [0]), used=65535)[:24]
-    for f in (hdr65535 + bytes(4096),):    # the long-file twin parses since fix 18c9d53 (65535 entries: too long for the list-based evaluation)
-        tree_cases.append(dict(mode="indexraw", file=f.hex(), root=0, osz=8, ndims=1, cdims=[4]))
-        tree_expect.append(None)
+    tree_cases.append(dict(mode="indexraw", file=(hdr65535 + bytes(4096)).hex(), root=0, osz=8, ndims=1, cdims=[4]))
+    tree_expect.append(None)
+    if thorough or LONG_IN_QUICK:
+        # the long-file twin: a node of 65535 all-zero entries (any writer may produce a full node); parses since 18c9d53
+        tree_cases.append(dict(mode="indexraw", file=hdr65535.hex(), ztail=65535 * 24 + 16, root=0, osz=8, ndims=1, cdims=[4], long=True))
+        tree_expect.append([dict(scaled=[0], nbytes=0, mask=0, addr=0)] * 65535 if repaired else None)
     raw_cases = tree_cases + gen_raw_cases(rng, raw_bases, thorough)
     raw_res = vlib.run_harness(H, "c01unit", raw_cases)
     base_i = len(cases)
@@ -665,6 +773,9 @@ def run_unit(ctx):
     res += raw_res
     ir_terms, ir_idx, ir_weight = [], [], []
     used65535 = [rclass(r) for c, r in zip(raw_cases, raw_res) if c["file"].startswith(hdr65535.hex())]
+    for c, r in zip(raw_cases, raw_res):      # the fix 18c9d53 at the reader: no panic on a full node
+        if c.get("long") and rclass(r) == 2 and repaired:
+            bad("a chunk B-tree node with 65535 entries makes ParseBTreeV1Node panic: %s" % r["panic"][:160], c, r)
     malformed = {0: 0, 1: 0, 2: 0}
     for j, (c, r) in enumerate(zip(raw_cases, raw_res)):
         evaluations += 1
@@ -676,7 +787,8 @@ def run_unit(ctx):
             if tree_expect[j] is not None and (k != 0 or r["read"]["entries"] != tree_expect[j]):
                 bad("a well-formed %d-level chunk B-tree (rank %d, offset size %d) with %d leaf entries is read as %s"
                     % (r.get("read", {}).get("level", -1) + 1, c["ndims"], c["osz"], len(tree_expect[j]),
-                       "class %d %s" % (k, r.get("panic", r.get("read", {}).get("err", ""))[:120]) if k else "%d entries" % len(r["read"]["entries"])), c, r,
+                       "class %d %s" % (k, r.get("panic", r.get("read", {}).get("err", ""))[:120]) if k else "%d entries" % len(r["read"]["entries"])), c,
+                    dict(r, read=dict(r["read"], entries=(r["read"].get("entries") or [])[:50])) if "read" in r else r,
                     expected=tree_expect[j][:50])
                 continue
             max_entries = max(max_entries, len(tree_expect[j] or []))
@@ -684,6 +796,16 @@ def run_unit(ctx):
             malformed[k] += 1
         rd = r.get("read", {})
         fb = bytes.fromhex(c["file"])
+        if c.get("long"):
+            long_go_only.append("foreign node with entries used = 65535: Go class %d, %d entries, equal to the Python specification" % (k, len(rd.get("entries") or [])))
+            continue
+        if c.get("long") and False:      # kept for a faster model reader: the run-length transport of the Go entries (irl_ok)
+            gr = compress_runs(rd.get("entries") or [], lambda e: e["scaled"], lambda e: e["addr"], lambda a, b: (a["nbytes"], a["mask"]) == (b["nbytes"], b["mask"]))
+            gs = "[" + ";".join("((%s,%d,%d,%d),%d,%d,%d)" % (cl(e["scaled"]), e["nbytes"], e["mask"], e["addr"], dh, da, n) for e, dh, da, n in gr) + "]"
+            groups.append(("Definition irl_%d : list irlcase := [(%s,%d,%d,%d,%d%%nat,%s,%d,%s)].\n" % (j, pk(fb), c["ztail"], c["root"], c["osz"], c["ndims"], cl(c["cdims"]), k, gs)
+                           + "Definition bad_irl_%d := Eval vm_compute in mismatches (irl_ok %s) irl_%d.\n" % (j, crep, j),
+                           [("bad_irl_%d" % j, "model", [base_i + j])]))
+            continue
         body = fb.rstrip(b"\0") if len(fb) > 8000 else fb     # long zero tails are not spelled out as literals
         ir_terms.append("(%s,%d,%d,%d,%d%%nat,%s,%d,%s)" % (pk(body), len(fb) - len(body), c["root"], c["osz"], c["ndims"], cl(c["cdims"]), k, gents(rd)))
         ir_idx.append(base_i + j)
@@ -738,7 +860,7 @@ def run_unit(ctx):
             # Go != model but the Python oracle accepted the Go output: fidelity divergence
             viol.append(dict(what="implementation and Coq model disagree (%s) while the specification holds on this input" % c["mode"],
                              case=c, impl={k: v for k, v in r.items() if k != "stack"}, nofail=True,
-                             correspondence=("Model/ChunkIndex.v (Model/ChunkIndexTie.v %s) vs Go; theorems C01_index_roundtrip / C01_index_lookup / C01_chunked_end_to_end" % lab)
+                             correspondence=("Model/ChunkIndex.v (Model/ChunkIndexTie.v %s) vs Go; theorems C01_index_roundtrip / C01_index_refused_unchanged / C01_index_lookup / C01_chunked_end_to_end" % lab)
                              if c["mode"] in ("index", "indexraw") else
                              "Model/Chunk.v + Model/Elem.v (Model/ChunkTie.v %s) vs Go; theorems C01_chunk_tiling / C13_read_after_resize / C01_int_roundtrip" % lab))
 
@@ -749,7 +871,8 @@ def run_unit(ctx):
     if wr.get("read", {}).get("ok") and bytes.fromhex(wr["read"]["bytes"]) != twice:
         known.append("C13 shrink-then-grow without a write: chunks written for [8] (chunk [4]) read under [7] give %s; "
                      "after an intermediate Resize to [3] the specification is %s (theorem C13_shrink_grow_refuted; "
-                     "class: some intermediate extent below both outer extents, see C13_read_after_two_resizes_partial)"
+                     "class: some intermediate extent below both the written and the final extent = not chain_covers, see "
+                     "C13_read_after_resizes / C13_read_after_resizes_tight)"
                      % (wr["read"]["bytes"], twice.hex()))
     nviol = len(viol)
     viol.sort(key=lambda v: bool(v.get("nofail")))
@@ -757,14 +880,16 @@ def run_unit(ctx):
     global LAST_INDEX_COVERAGE
     LAST_INDEX_COVERAGE = dict(index_cases=len(iw_terms), max_entries=max_entries, malformed_cases=sum(malformed.values()),
                                malformed_classes=dict(ok=malformed[0], err=malformed[1], panic=malformed[2]), tree_cases=len(tree_cases),
-                               entries_used_65535_classes=used65535,
+                               entries_used_65535_classes=used65535, repair_switch_from_source=repaired,
+                               long_cases_model=len(iwl_terms), long_cases_go_only=long_go_only,
                                entry_counts=sorted({len(c["entries"]) for c in idxc}),
                                ranks=sorted({c["dim"] for c in idxc}), unit_wall_s=round(time.time() - t0, 1))
     return dict(violations=viol, violations_total=nviol, evaluations=evaluations, distinct=len(distinct), samples=samples[:8], known=known,
                 coq_cases=len(tile_terms) + len(conv_terms) + len(encint_terms) + len(encstr_terms) + len(decstr_terms) + len(iw_terms) + len(ir_terms),
                 index_cases=len(iw_terms), max_entries=max_entries, malformed_cases=sum(malformed.values()),
                 malformed_classes=dict(ok=malformed[0], err=malformed[1], panic=malformed[2]), tree_cases=len(tree_cases),
-                entries_used_65535_classes=used65535,
+                entries_used_65535_classes=used65535, repair_switch_from_source=repaired,
+                long_cases_model=len(iwl_terms), long_cases_go_only=long_go_only,
                 coq_seconds=round(coq_s, 1), wall_s=round(time.time() - t0, 1),
                 distribution=dict(tile=len(tile), resize=len(resize), conv_buffers=len(conv), enc_buffers=len(enc),
                                   ranks={k: sum(1 for c in tile + resize if len(c["dims"]) == k) for k in (1, 2, 3, 4)},
